@@ -85,6 +85,19 @@ func c16Formatters() []c16Formatter {
 
 func init() {
 	props["C16"] = runC16
+	replayers["C16/longroman"] = func(v rt.Violation) string {
+		c := rt.ReplayCtx("C16")
+		c.Serial("replay", func(w *rt.W) {
+			n, f, prefix, spare := roman.Number(rt.ArgUint(v, "n")), roman.Format(rt.ArgInt(v, "format")), rt.ArgString(v, "prefix"), int(rt.ArgInt(v, "spare"))
+			ref0, _ := roman.DefaultFormatter(nil, n, f)
+			out, err := roman.DefaultFormatter(append(make([]byte, 0, len(prefix)+spare), prefix...), n, f)
+			w.Eval(1)
+			if err != nil || string(out[:len(prefix)]) != prefix || !bytes.Equal(out[len(prefix):], ref0) {
+				w.Fail("long-result-behind-prefix-roman", "longroman", v.Args, fmt.Sprintf("%d bytes", len(out)), fmt.Sprintf("%d bytes: prefix ++ format(nil)", len(prefix)+len(ref0)), "see the recorded event")
+			}
+		})
+		return c.Report()
+	}
 	replayers["C16/append"] = func(v rt.Violation) string {
 		c := rt.ReplayCtx("C16")
 		for _, f := range c16Formatters() {
@@ -336,6 +349,48 @@ func runC16(c *rt.Ctx) {
 		})
 		c.Require(f.name+"-prefix-with-emittable-byte", 100)
 	}
+
+	// very long results behind a prefix: numerals of several megabytes (block-wise writers copy from positions
+	// computed without the prefix), a few flags, prefixes and capacities each
+	c.Parallel("long-roman-results", 0, func(w *rt.W) {
+		ns := []roman.Number{4095000, 4096000, 4097999, 8191000, 8192000, 8193444, 9000000}
+		for i := w.Shard; i < len(ns); i += w.NShards {
+			for _, f := range []roman.Format{0, roman.FormatLong | roman.FormatLowerCase} {
+				ref0, err := roman.DefaultFormatter(nil, ns[i], f)
+				if err != nil {
+					continue
+				}
+				for _, prefix := range []string{"AB", "M", "MIX: ", "x", strings.Repeat("vol. ", 900)} {
+					for _, spare := range []int{0, 7, len(ref0), len(ref0) + 1} {
+						buf := append(make([]byte, 0, len(prefix)+spare), prefix...)
+						var out []byte
+						panicked, msg := rt.Call(func() { out, err = roman.DefaultFormatter(buf, ns[i], f) })
+						w.Eval(1)
+						ok := !panicked && err == nil && len(out) == len(prefix)+len(ref0) && string(out[:len(prefix)]) == prefix && bytes.Equal(out[len(prefix):], ref0)
+						if !ok {
+							at := -1
+							for k := 0; k < len(out) && k < len(prefix)+len(ref0); k++ {
+								want := byte(0)
+								if k < len(prefix) {
+									want = prefix[k]
+								} else {
+									want = ref0[k-len(prefix)]
+								}
+								if out[k] != want {
+									at = k
+									break
+								}
+							}
+							w.Fail("long-result-behind-prefix-roman", "longroman", rt.Args("n", uint64(ns[i]), "format", int(f), "prefix", prefix, "spare", spare), fmt.Sprintf("%d bytes, first difference at offset %d, panic=%v %s err=%v", len(out), at, panicked, firstLine(msg), err), fmt.Sprintf("%d bytes: prefix ++ format(nil)", len(prefix)+len(ref0)), "formatting a very long numeral into a caller buffer must return prefix ++ format(nil)")
+						}
+					}
+				}
+			}
+			w.ClassN("long-roman-result", 1)
+			w.NT(1)
+		}
+	})
+	c.Require("long-roman-result", 7)
 
 	nIDs := c.Pick(200000, 20000000)
 	c.Parallel("urn", 0, func(w *rt.W) {
